@@ -76,6 +76,42 @@ seed("C10-2", "C10", "fpa.add_2sum fix_overflow guard abs(z) > largest became >=
      "fast=False, fix_overflow=True, second operand exactly +-largest: t forced to 0 with no overflow anywhere",
      "C10 quick: fpa.add_2sum-exact")
 
+seed("C09-1", "C09", "make_ref: composed reference names longer than 44 characters are cut and suffixed with hash(ref) & 0xFFFFFF (str hash is salted per process)",
+     "two different PYTHONHASHSEED values and a function with a composed name longer than 44 characters (complex asin/acos/asinh/acosh/asin_acos_kernel: 35 of 172 requests)",
+     "C09 quick: text-differs-from-canonical (hash seeds 1, 2 against the canonical seed-0 process)")
+seed("C09-2", "C09", "the registry of constant reference-name owners moved from the Context instance to a class attribute shared by all contexts",
+     "an earlier generation in the same process that used an unnamed shared constant of the same value identifier but another type (numpy asin complex64 after complex128, cpp hypot float32 after python hypot ...)",
+     "C09 quick: text-differs-from-canonical under the 'reversed' / pollution-prefix histories")
+seed("C11-1", "C11", "mul_dekker fix_overflow: overflow = abs(xh*yh) > largest lost its abs()",
+     "fix_overflow=True, x*y negative and within ~2^-(p/2) of -largest: all fma variants return -inf / nan although x*y and x*y+z are finite",
+     "C11 quick: fma_real-bound:*:internal_overflow_result_is_not_the_documented_fallback",
+     first_result="missed (HELD): the failing operands lie in the region of KF-C11-fma-overflow-fallback and the classifier keyed that finding by the operand region only",
+     strengthened="the known finding is now matched by its result signature (result == RN(RN(x*y)+z), or non-finite when that overflows); other results in the region are violations")
+seed("C11-2", "C11", "fma a9 tie-correction guard tests vh == 0 instead of vl == 0 (both copies)",
+     "algorithm='a9', z cancelling RN(x*y) to within a few ULP and the product's rounding error 1 or 3 times a power of two (ties, short significands)",
+     "C11 quick: apmath.fma-bound:a9 (relation generators: rounding ties and cancellation)")
+seed("C12-1", "C12", "renormalize: the first step of the error-branch pass skipped (e[0] always emitted first)",
+     "leading items that cancel exactly ([a, -a, b], [-a, a+ulp, small]); visible as a zero first item, and as a lost sum under a size limit although the exact result fits",
+     "C12 quick: renormalize-size-limit-changes-sum-with-nothing-to-truncate:eager|functional",
+     first_result="missed (HELD): the generator's strict-decrease enforcement removed equal-magnitude neighbours (no [a, -a, ..]); size-limited calls were exempted from the sum clause whenever the output was full",
+     strengthened="head-cancellation inputs, non-strict precondition, zeros-last after two passes, and 'a size limit >= the number of non-zero items of the unlimited result must not change the sum'")
+seed("C12-2", "C12", "square: the error word of the doubled cross products is not doubled (e_i += e_i deleted)",
+     "leading items of opposite sign and comparable magnitude (unnormalised input such as [1.3, -0.91]): error of 3-10 ulp of the leading term",
+     "C12 quick: square-error-bound:unnormalised-operands",
+     first_result="missed (HELD): multiply/square were driven with normalised non-overlapping operands only, on which the change stays below one ulp",
+     strengthened="multiply/square also on overlapping mixed-sign lists with zeros (float32/float64), where the unchanged code is exact to ~1e-36 ulp")
+seed("C13-1", "C13", "float2mpf passes the context's precision instead of the dtype's to from_man_exp (rebased onto HEAD after fix 5adbe05 of the neighbouring defect)",
+     "an mpmath context with fewer bits than the value needs (prec < 53 for float64)",
+     "C13 quick: float2mpf-value, mpf-roundtrip:low-precision-context",
+     first_result="missed (HELD): every conversion ran under mp.workprec(1200); the agent's note also exposed the pre-existing loss for float16/float32 (fixed: 5adbe05)",
+     strengthened="float2mpf / mpf2float round trips of every value in cloned contexts of 4, 11, 24 and 40 bits")
+seed("C13-2", "C13", "bin2float('-0') returns dtype(-0) (integer zero, +0.0) instead of -dtype(0)",
+     "only the value -0.0, any dtype", "C13 quick: bin-roundtrip-negzero")
+seed("C14-1", "C14", "array fast path of diff_ulp subtracts ordinals in the same-width signed integer type before widening",
+     "array form only, opposite-sign pairs whose distance is at least 2^(bits-1)", "C14 quick: array-form")
+seed("C14-2", "C14", "flush remap of y tests ix instead of iy",
+     "flush_subnormals=True with a zero or subnormal second argument", "C14 quick: flush-symmetry, flush-consistency")
+
 for id_, meta in T.items():
     d = os.path.join(ROOT, id_)
     if not os.path.isdir(d):
